@@ -328,6 +328,10 @@ ONE_COMBOS = ([(f, 'iter') for f in LF_FORMS] * 2 + [(f, 'ctor') for f in ALL_FO
 ALL_COMBOS = ([(f, 'iter') for f in LF_FORMS] + [(f, 'ctor') for f in ALL_FORMS]
               + [(UNIVERSAL, 'iter'), (UNIVERSAL, 'ctor')])
 CR_MID = re.compile(r'[^ \t\r\n][ \t]*\r(?!\n)[ \t]')
+# SUBCLASS LAYER only: the plain list of lines handed to cls(lines, strict=...) (not an iterator: one paragraph is read)
+SEQ_FORMS = ('lines-nl-seq', 'lines-bare-seq')
+SUB_ALL = ([(f, 'iter') for f in ALL_FORMS] + [(f, 'ctor') for f in ALL_FORMS] + [(f, 'ctor') for f in SEQ_FORMS]
+           + [(UNIVERSAL, 'iter')])
 
 
 def plan(depth, sel):
@@ -410,6 +414,9 @@ class Sources(object):
             return io.BytesIO(self._bytes), True, None
         if form == 'stringio':
             return io.StringIO(self.text), True, None
+        if form in SEQ_FORMS:            # the plain list handed to the constructor (only the first paragraph is read)
+            self.lines()
+            return list(self._nl if form == 'lines-nl-seq' else self._lines), False, None
         if form == 'lines-nl' or form == 'lines-bare':
             self.lines()
             seq = self._nl if form == 'lines-nl' else self._lines
@@ -846,72 +853,105 @@ def classify(keys, names, nparas):
     return 'accepted-value-changes-field-names'
 
 
-def reread_once(src, is_iter, api, strict):
-    """Field names of the paragraphs one re-read gives.  api 'iter': Deb822.iter_paragraphs; api 'ctor': the
-    Deb822(...) constructor (reads the first paragraph; on an iterator/file a second call reads what follows)."""
-    from debian.deb822 import Deb822
+def reread_once(src, is_iter, api, strict, cls=None):
+    """Field names of the paragraphs one re-read gives.  api 'iter': cls.iter_paragraphs; api 'ctor': the
+    cls(...) constructor (reads the first paragraph; on an iterator/file a second call reads what follows).
+    cls: Deb822 unless the subclass layer asks for the entry points of one of the subclasses."""
+    if cls is None:
+        from debian.deb822 import Deb822 as cls
     if api == 'iter':
-        return [list(p) for p in Deb822.iter_paragraphs(src, strict=strict)]
-    first = Deb822(src, strict=strict)
+        return [list(p) for p in cls.iter_paragraphs(src, strict=strict)]
+    first = cls(src, strict=strict)
     names = [list(first)] if first else []
     if is_iter:
-        rest = Deb822(src, strict=strict)
+        rest = cls(src, strict=strict)
         if rest:
             names.append(list(rest))
     return names
 
 
-def check_reread(ctx, d, v, small, what='dump', depth='none', sel=0, values=None, suffix=''):
+def check_reread(ctx, d, v, small, what='dump', depth='none', sel=0, values=None, suffix='', sub=None, sink=None,
+                 followed=False):
     """M.reread: the accepted value's paragraph re-reads as ONE paragraph with the same names.
     values: all values of a PARSED paragraph (the blank-continuation guard of the default setting then looks at every
-    one of them, and the re-reads are also counted as M.reread-parsed)."""
+    one of them, and the re-reads are also counted as M.reread-parsed).
+    sub: SUBCLASS LAYER - name of the class of d: the dump is re-read through THAT class's iter_paragraphs / constructor
+    (str and bytes always, plus the forms sub_plan() selects) and once through plain Deb822; counted as M.reread-sub.
+    sink: called with (key, message) instead of ctx.violation (the subclass layer picks the witness itself)."""
     keys = list(d)
     text = d.dump()
-    parsed = values is not None
-    if parsed:
+    parsed = values is not None and sub is None
+    if values is not None:
         blank = any(model.blank_continuation(x) for x in values)
     else:
         blank = model.blank_continuation(v)
-    combos = [('str', 'iter'), ('bytes', 'iter')]
-    extra = plan(depth, sel)
-    if extra:
-        combos.extend(extra)
-        if parsed:
-            ctx.count('parse:reread-extra-forms')
-        elif '\r' in v:
-            ctx.count('lf:cr-value')
-            if depth in ('full', 'all'):
-                ctx.count('lf:cr-value-4-forms')
-            if v.lstrip(' \t')[:1] == '\r':
-                ctx.count('lf:cr-after-colon-blanks')
-            if '\r\n' in v or v[-1] == '\r':
-                ctx.count('lf:cr-at-line-end')
-            if CR_MID.search(v):
-                ctx.count('lf:cr-mid-line')
+    rcls = None
+    if sub is not None:
+        rcls = sub_cls(sub)
+        combos = [('str', 'iter', rcls), ('bytes', 'iter', rcls)]
+        if sub != 'Deb822':
+            combos.append(('str', 'iter', None))
+        extra = sub_plan(depth, sel)
+        combos.extend((f, a, rcls) for f, a in extra)
+        # a whitespace-only continuation line in the assigned value, with further fields behind it
+        ws_followed = followed and model.blank_continuation(v)
+        if ws_followed:
+            ctx.count('sub:ws-only-continuation-followed')
+            ctx.count('sub:ws-only-continuation-followed:' + sub)
+    else:
+        ws_followed = False
+        combos = [('str', 'iter', None), ('bytes', 'iter', None)]
+        extra = plan(depth, sel)
+        if extra:
+            combos.extend((f, a, None) for f, a in extra)
+            if parsed:
+                ctx.count('parse:reread-extra-forms')
+            elif '\r' in v:
+                ctx.count('lf:cr-value')
+                if depth in ('full', 'all'):
+                    ctx.count('lf:cr-value-4-forms')
+                if v.lstrip(' \t')[:1] == '\r':
+                    ctx.count('lf:cr-after-colon-blanks')
+                if '\r\n' in v or v[-1] == '\r':
+                    ctx.count('lf:cr-at-line-end')
+                if CR_MID.search(v):
+                    ctx.count('lf:cr-mid-line')
     srcs = Sources(ctx, d, text)
     found = {}        # mechanism key -> (first detail, [modes]) : one report per mechanism per case
     for strict, sname in ((WS_FALSE, 'ws-false'), (None, 'default')):
         if strict is None and blank:
             ctx.count('reread-default-skipped:blank-continuation')
             continue
-        for form, api in combos:
+        for form, api, cls in combos:
             mode = '%s/%s' % (form, sname) if api == 'iter' else '%s/Deb822()/%s' % (form, sname)
             ctx.mon('M.reread')
-            if parsed:
-                ctx.mon('M.reread-parsed')
-            if form not in ('str', 'bytes'):
-                if parsed:               # kept apart: the form:* / api:* floors speak about the assignment side
-                    ctx.count('parse:reread-form:' + form)
-                else:
-                    if form != UNIVERSAL:
-                        ctx.mon('M.reread-lf')
-                    ctx.count('form:' + form)
-            if api == 'ctor' and not parsed:
-                ctx.count('api:Deb822()')
+            if sub is not None:
+                cname = sub if cls is not None else 'Deb822'
+                mode = '%s/%s/%s' % (form, '%s.iter_paragraphs' % cname if api == 'iter' else '%s()' % cname, sname)
+                ctx.mon('M.reread-sub')
+                ctx.count('sub:reread-form:' + form)
+                ctx.count('sub:reread:%s:%s' % (cname, api))
+                if strict is not None:
+                    ctx.count('sub:reread-explicit-strict:%s:%s' % (cname, api))
+                    if ws_followed:
+                        ctx.count('sub:ws-reread:%s:%s' % (cname, api))
+                        ctx.count('sub:ws-reread-form:' + form)
+            else:
+                if parsed:
+                    ctx.mon('M.reread-parsed')
+                if form not in ('str', 'bytes'):
+                    if parsed:               # kept apart: the form:* / api:* floors speak about the assignment side
+                        ctx.count('parse:reread-form:' + form)
+                    else:
+                        if form != UNIVERSAL:
+                            ctx.mon('M.reread-lf')
+                        ctx.count('form:' + form)
+                if api == 'ctor' and not parsed:
+                    ctx.count('api:Deb822()')
             closer = None
             try:
                 src, is_iter, closer = srcs.get(form, api)
-                names = reread_once(src, is_iter, api, strict)
+                names = reread_once(src, is_iter, api, strict, cls)
             except Exception as e:       # the dump of an accepted value cannot be read back at all
                 found.setdefault('reread-raises', ('raised %s: %s' % (type(e).__name__, e), []))[1].append(mode)
                 continue
@@ -926,8 +966,12 @@ def check_reread(ctx, d, v, small, what='dump', depth='none', sel=0, values=None
                 detail += ' [file written by dump(fd) holds %r]' % (srcs.file_content(form),)
             found.setdefault(classify(keys, names, len(names)), (detail, []))[1].append(mode)
     for key, (detail, modes) in sorted(found.items()):
-        ctx.violation(key + suffix, '%s of accepted value %r is %r; re-read [%s] %s; expected one paragraph with fields %r'
-                      % (what, v, text, ', '.join(modes), detail, keys), small)
+        msg = ('%s of accepted value %r is %r; re-read [%s] %s; expected one paragraph with fields %r'
+               % (what, v, text, ', '.join(modes), detail, keys))
+        if sink is not None:
+            sink(key + suffix, msg)
+        else:
+            ctx.violation(key + suffix, msg, small)
     ok = not found
     return ok
 
